@@ -200,6 +200,8 @@ func (c *ContractIterator) Value() []byte {
 // stripDelIterator 从迭代器里剔除删除标注和空版本
 type stripDelIterator struct {
 	ledger.XMIterator
+	// stripEmpty also skips the records of reads of keys that never existed
+	stripEmpty bool
 }
 
 func newStripDelIterator(xmiter ledger.XMIterator) ledger.XMIterator {
@@ -208,10 +210,22 @@ func newStripDelIterator(xmiter ledger.XMIterator) ledger.XMIterator {
 	}
 }
 
+// newStripNonLiveIterator is used on the read set: it holds, besides delete markers,
+// empty versioned records for keys that were read but never existed
+func newStripNonLiveIterator(xmiter ledger.XMIterator) ledger.XMIterator {
+	return &stripDelIterator{
+		XMIterator: xmiter,
+		stripEmpty: true,
+	}
+}
+
 func (s *stripDelIterator) Next() bool {
 	for s.XMIterator.Next() {
 		v := s.Value()
 		if IsDelFlag(v.PureData.Value) {
+			continue
+		}
+		if s.stripEmpty && IsEmptyVersionedData(v) {
 			continue
 		}
 		return true
